@@ -54,3 +54,16 @@ class T__V:
 
     def run(self):
         return _run(self)
+
+
+@labtech.task
+class M5:
+    """a type with several parameters (the others have one): four of them keep their defaults"""
+    f1: object
+    f2: object = 1
+    f3: object = 'a'
+    f4: object = None
+    f5: object = 1.0
+
+    def run(self):
+        return _run(self)
